@@ -12,6 +12,9 @@ structure FragInv (P : Nat) (d : Dec) : Prop where
   size_eq : d.fragmentsSize = totalLen d.fragments
   size_le : d.fragmentsSize ≤ maxAU + P
   empty   : d.fragmentsSize = 0 → d.fragments = []
+  /-- every stored fragment but the header (and possibly the first data fragment) is non-empty, so
+  the NUMBER of stored fragments is bounded by the byte size (false before /repo commit fc590d9) -/
+  count_le : d.fragments.length ≤ d.fragmentsSize + 1
 
 /-- the part of the invariant about the access unit being collected -/
 structure FbInv (d : Dec) : Prop where
@@ -35,7 +38,7 @@ def NStep (P : Nat) (d : Dec) (r : Dec × NRes) : Prop :=
   FragInv P r.1 ∧ fbPart r.1 = fbPart d ∧ ∀ ns, r.2 = .nalus ns → ns ≠ [] ∧ AllNonempty ns
 
 theorem fragInv_reset (P : Nat) (d : Dec) : FragInv P d.resetFragments :=
-  ⟨rfl, by simp [Dec.resetFragments], fun _ => rfl⟩
+  ⟨rfl, by simp [Dec.resetFragments], fun _ => rfl, by simp [Dec.resetFragments]⟩
 
 theorem nstep_reset_err (P : Nat) (d : Dec) : NStep P d (d.resetFragments, .err) :=
   ⟨fragInv_reset P d, rfl, by simp⟩
@@ -46,25 +49,32 @@ theorem fuStart_step (P : Nat) (d : Dec) (seq : UInt16) (b0 b1 b2 : UInt8) (data
   dsimp only
   split
   · exact nstep_reset_err P d
-  · exact ⟨⟨by simp [totalLen]; omega, by simp; omega, by simp⟩, rfl, by simp⟩
+  · exact ⟨⟨by simp [totalLen]; omega, by simp; omega, by simp, by simp⟩, rfl, by simp⟩
 
 theorem fuCont_step (P : Nat) (d : Dec) (seq : UInt16) (b2 : UInt8) (data : Bytes)
     (hi : FragInv P d) : NStep P d (fuCont d seq b2 data) := by
-  obtain ⟨h1, h2, h3⟩ := hi
+  obtain ⟨h1, h2, h3, h4⟩ := hi
   unfold fuCont
   dsimp only
   split
-  · split <;> exact ⟨⟨h1, h2, h3⟩, rfl, by simp⟩
+  · split <;> exact ⟨⟨h1, h2, h3, h4⟩, rfl, by simp⟩
   · split
     · exact nstep_reset_err P d
     · split
       · exact nstep_reset_err P d
       · split
-        · exact ⟨⟨by simp [h1], by simp; omega, by simp; omega⟩, rfl, by simp⟩
+        · have cont_inv : FragInv P
+              { d with fragmentsSize := d.fragmentsSize + data.length,
+                       fragments := pushFrag d.fragments data,
+                       fragmentNextSeqNum := d.fragmentNextSeqNum + 1 } := by
+            have hl := pushFrag_length d.fragments data
+            exact ⟨by simp [pushFrag_totalLen, h1], by simp; omega,
+              by simp; intro hz hd; omega, by simp only; omega⟩
+          exact ⟨cont_inv, rfl, by simp⟩
         · split
-          · exact ⟨⟨rfl, by simp [Dec.resetFragments], fun _ => rfl⟩, rfl, by simp⟩
+          · exact ⟨⟨rfl, by simp [Dec.resetFragments], fun _ => rfl, by simp [Dec.resetFragments]⟩, rfl, by simp⟩
           · rename_i hlen
-            refine ⟨⟨rfl, by simp [Dec.resetFragments], fun _ => rfl⟩, rfl, ?_⟩
+            refine ⟨⟨rfl, by simp [Dec.resetFragments], fun _ => rfl, by simp [Dec.resetFragments]⟩, rfl, ?_⟩
             intro ns h
             simp only [NRes.nalus.injEq] at h
             rw [← h]
@@ -87,7 +97,7 @@ theorem decodeAP_step (P : Nat) (d : Dec) (tl : Bytes) : NStep P d (decodeAP d t
   split
   · exact nstep_reset_err P d
   · rename_i ns hagg
-    refine ⟨⟨rfl, by simp [Dec.resetFragments], fun _ => rfl⟩, rfl, ?_⟩
+    refine ⟨⟨rfl, by simp [Dec.resetFragments], fun _ => rfl, by simp [Dec.resetFragments]⟩, rfl, ?_⟩
     intro ns' h
     simp only [NRes.nalus.injEq] at h
     rw [← h]
@@ -132,7 +142,7 @@ theorem decodeNALUs_step (P : Nat) (d : Dec) (p : Pkt) (hi : FragInv P d)
       · exact decodeFU_step P d p.seq b0 b1 tl hi (by omega)
       · split
         · exact nstep_reset_err P d
-        · refine ⟨⟨rfl, by simp [Dec.resetFragments], fun _ => rfl⟩, rfl, ?_⟩
+        · refine ⟨⟨rfl, by simp [Dec.resetFragments], fun _ => rfl, by simp [Dec.resetFragments]⟩, rfl, ?_⟩
           intro ns h
           simp only [NRes.nalus.injEq] at h
           rw [← h, hpl]
@@ -154,7 +164,8 @@ theorem fragInv_of_fragPart (P : Nat) (d d' : Dec) (h : fragPart d' = fragPart d
     FragInv P d' := by
   simp only [fragPart, Prod.mk.injEq] at h
   obtain ⟨h1, h2, _⟩ := h
-  exact ⟨by rw [h2, h1]; exact hi.1, by rw [h2]; exact hi.2, by rw [h2, h1]; exact hi.3⟩
+  exact ⟨by rw [h2, h1]; exact hi.1, by rw [h2]; exact hi.2, by rw [h2, h1]; exact hi.3,
+    by rw [h2, h1]; exact hi.4⟩
 
 /-- result of the frame-buffer stage: invariant kept; an `ok` output is a whole frame buffer; a
 packet with the marker always leaves the buffer empty -/
